@@ -101,7 +101,7 @@ pub fn multi_body(p: &MultiParams, flush_and_end: bool, check_capacity: bool) ->
     let name = log_name();
     let _guard = LogFileGuard(if p.kind == Kind::MultiMmapLog { Some(name.clone()) } else { None });
     let ch: ChanArc = Arc::new(chan::make::<Tracked>(p.kind, p.buffer, p.max_streams, &name));
-    let shared = Arc::new(HLock::new(Shared { events: vec![], producers_active: p.producers.len() }));
+    let shared = Arc::new(HLock::new(Shared { events: vec![], drops: vec![], producers_active: p.producers.len() }));
     let listeners: Arc<HLock<Vec<ListenerRec>>> = Arc::new(HLock::new(vec![]));
     for i in 0..p.presend {
         let id = presend_id(i);
